@@ -321,7 +321,8 @@ pub fn run(cfg: &Cfg) -> i32 {
     let _ = crate::keys::pool();
     let cases = gen_cases(cfg);
     let budget = cfg.tier.pick(Duration::from_secs(240), Duration::from_secs(1200));
-    let ev = par_run(cfg, cases.len() as u64, budget, |_w, i| cases.get(i as usize).map(run_case));
+    let mut ev = par_run(cfg, cases.len() as u64, budget, |_w, i| cases.get(i as usize).map(run_case));
+    crate::memcheck::run(cfg, &mut ev, crate::memcheck::Leg { processes: 16, modulus: 16, limit: Duration::from_secs(900) });
     let mut required: Vec<String> = MUTS.iter().map(|m| format!("mutation={m:?}")).collect();
     for t in ["root", "delegations1", "delegations2"] {
         required.push(format!("table={t}"));
